@@ -74,6 +74,8 @@ type Actor struct {
 	Tag string
 	// Prio is used by the PCT strategy.
 	Prio int
+	// adopted goroutines are never poisoned at teardown.
+	adopted bool
 }
 
 // Parked reports whether the actor is waiting at a ticket.
@@ -265,6 +267,39 @@ func firstLine(s string) string {
 	return s
 }
 
+// AdoptCurrent registers the calling goroutine, which was started by a
+// library on behalf of the code under test (e.g. an errgroup worker), as an
+// actor with the given unique, deterministic name. The goroutine counts as
+// running; its first park point should follow at once. An adopted goroutine
+// has no recover frame of the kernel below it: the world must let it run to
+// completion (and call Retire) before the run is torn down.
+func (k *Kernel) AdoptCurrent(name string) *Actor {
+	id := goid()
+	a := &Actor{Name: name, goid: id, started: true, resume: make(chan int), childSeq: map[string]int{}, adopted: true}
+	k.mu.Lock()
+	defer k.mu.Unlock()
+	if _, dup := k.names[name]; dup {
+		panic(HarnessError{"duplicate actor name " + name})
+	}
+	if _, dup := k.actors[id]; dup {
+		panic(HarnessError{"goroutine adopted twice: " + name})
+	}
+	k.names[name] = a
+	k.actors[id] = a
+	return a
+}
+
+// Retire marks an adopted goroutine as finished.
+func (k *Kernel) Retire(a *Actor) {
+	k.mu.Lock()
+	if !a.done {
+		a.done = true
+		a.ticket = nil
+		delete(k.actors, a.goid)
+	}
+	k.mu.Unlock()
+}
+
 // Go is what simrewrite turns `go func(){...}()` statements of the code under
 // test into: the child gets a deterministic name derived from its parent.
 func Go(site string, fn func()) {
@@ -347,6 +382,9 @@ func (k *Kernel) SeamW(label string, weight, faultWeight int, options ...string)
 		return 0
 	}
 	a := k.Me()
+	if faultWeight <= 0 && len(options) > 1 {
+		options = options[:1]
+	}
 	return k.park(a, &Ticket{kind: tSeam, Label: label, Options: options, Weight: weight, FaultWeight: faultWeight})
 }
 
@@ -635,7 +673,7 @@ func (k *Kernel) Teardown() {
 	k.poisoned = true
 	var parked []*Actor
 	for _, a := range k.names {
-		if a.ticket != nil && !a.done {
+		if a.ticket != nil && !a.done && !a.adopted {
 			parked = append(parked, a)
 		}
 	}
